@@ -432,6 +432,8 @@ def check(pid, tier="quick", runs=None, procs=None, vseed=None, budget=None):
         "known_finding_lines": known_lines,
         "exhaustive": False,
     }
+    if hasattr(prop, "post_evidence"):
+        prop.post_evidence(cov)
     stuck = [p for p in getattr(prop, "required_probes", ()) if not total["probes"].get(p)]
     if stuck:
         cov["probes_stuck_at_zero"] = stuck
